@@ -110,7 +110,7 @@ func record(env *core.Env, emit func(map[string]any)) (*core.Summary, error) {
 			if i == depth-1 && pend > 0 {
 				st = core.Step{"op": "Save"}
 			}
-			ret, chk, err := d.Apply(st)
+			ret, chk, err := safeApply(d, st)
 			if err != nil {
 				d.Close()
 				return nil, err
@@ -120,6 +120,10 @@ func record(env *core.Env, emit func(map[string]any)) (*core.Summary, error) {
 				if k != "op" {
 					ev[k] = v
 				}
+			}
+			if rs, ok := ret.(string); ok && len(rs) > 6 && rs[:6] == "panic:" {
+				emit(ev)
+				break // the trace specification rejects this event
 			}
 			if st.Op() == "Save" {
 				ev["chk"] = uniform(core.Norm(chk))
@@ -149,4 +153,14 @@ func record(env *core.Env, emit func(map[string]any)) (*core.Summary, error) {
 		}
 	}
 	return sum, nil
+}
+
+// safeApply: a panic of the code under test is an observed reply ("panic:..."), not a harness failure
+func safeApply(d *drv, st core.Step) (ret any, chk any, err error) {
+	defer func() {
+		if r := recover(); r != nil {
+			ret, chk, err = fmt.Sprintf("panic: %v", r), nil, nil
+		}
+	}()
+	return d.Apply(st)
 }
